@@ -45,11 +45,55 @@ FIXED_ENV = {
 }
 
 
+def _numba_source_hash():
+    """numba invalidates its on-disk cache per FILE: a change in one file is invisible to cached
+    callers in another file that inlined the old callee (seen with a seeded change of
+    piquasso/_math/combinatorics.py:arr_comb, used by indices.py).  The cache directory is therefore
+    keyed by the contents of every piquasso source file that uses numba."""
+    import hashlib
+
+    repo = os.environ.get("VERIF_REPO", "/repo")
+    h = hashlib.sha1()
+    root = os.path.join(repo, "piquasso")
+    for dirpath, dirnames, filenames in os.walk(root):
+        dirnames[:] = sorted(d for d in dirnames if d != "__pycache__")
+        for fn in sorted(filenames):
+            if fn.endswith(".py"):
+                path = os.path.join(dirpath, fn)
+                try:
+                    with open(path, "rb") as fh:
+                        data = fh.read()
+                except OSError:
+                    continue
+                if b"numba" in data or b"nb.njit" in data:
+                    h.update(os.path.relpath(path, repo).encode())
+                    h.update(data)
+    return h.hexdigest()[:12]
+
+
+def _prune_numba_caches(root, keep):
+    try:
+        ds = sorted((d for d in os.listdir(root) if os.path.isdir(os.path.join(root, d))), key=lambda d: os.path.getmtime(os.path.join(root, d)))
+        import shutil
+        import time
+
+        for d in ds[:-keep]:
+            if time.time() - os.path.getmtime(os.path.join(root, d)) > 3 * 3600:
+                shutil.rmtree(os.path.join(root, d), ignore_errors=True)
+    except OSError:
+        pass
+
+
 def _reexec():
     if os.environ.get("VERIF_REEXEC") == "1":
         return
     env = dict(os.environ)
     env.update(FIXED_ENV)
+    cache_root = os.path.join(VERIF, "build", "numba_cache")
+    env["NUMBA_CACHE_DIR"] = os.path.join(cache_root, _numba_source_hash())
+    os.makedirs(env["NUMBA_CACHE_DIR"], exist_ok=True)
+    os.utime(env["NUMBA_CACHE_DIR"], None)
+    _prune_numba_caches(cache_root, keep=8)
     env["VERIF_REEXEC"] = "1"
     os.execve(sys.executable, [sys.executable, os.path.abspath(__file__)] + sys.argv[1:], env)
 
